@@ -22,7 +22,8 @@ Record hist_params := mkHP {
   hp_gcd : gcd_params;
   hp_roots : roots_params;
   hp_radix : radix_params;
-  hp_iter : iter_params
+  hp_iter : iter_params;
+  hp_serde : serde_params
 }.
 (** the initial guess of the Newton iterations: the no_std one, 2^max_bits (the std build starts from
     an f64 estimate instead; the result does not depend on the guess: C11_guess_independent) *)
@@ -76,7 +77,7 @@ Definition construct (P : hist_params) (c : ctor) : outcome obj :=
   | CUSlice w => Ret (OU (ufrom_slice w))
   | CUBytesLe b => do r <- ufrom_bytes_le b; Ret (OU r)
   | CUBytesBe b => do r <- ufrom_bytes_be b; Ret (OU r)
-  | CUSerde w => do r <- of_opt (de_biguint_tokens None w) 1410; Ret (OU r)
+  | CUSerde w => do r <- of_opt (de_biguint_tokens (hp_serde P) None w) 1410; Ret (OU r)
   | CIParts s d => Ret (OI (from_biguint s (biguint_from_vec d)))
   | CINew s w => Ret (OI (inew s w))
   | CISlice s w => Ret (OI (ifrom_slice s w))
@@ -84,7 +85,7 @@ Definition construct (P : hist_params) (c : ctor) : outcome obj :=
   | CIBytesBe s b => do r <- ifrom_bytes_be s b; Ret (OI r)
   | CISignedLe b => do r <- from_signed_bytes_le b; Ret (OI r)
   | CISignedBe b => do r <- from_signed_bytes_be b; Ret (OI r)
-  | CISerde s w => do r <- of_opt (de_bigint (ser_sign s) None w) 1411; Ret (OI r)
+  | CISerde s w => do r <- of_opt (de_bigint (hp_serde P) (sign_z s) None w) 1411; Ret (OI r)
   | CIFromU d => Ret (OI (ifrom_u (biguint_from_vec d)))
   | CURadixLe b r => do o <- u_from_radix_le (hp_radix P) b r; do d <- of_opt o 1412; Ret (OU d)
   | CURadixBe b r => do o <- u_from_radix_be (hp_radix P) b r; do d <- of_opt o 1412; Ret (OU d)
